@@ -395,6 +395,8 @@ def replay(o, tree):
         return deferred_c.replay_poly_nested(cfg, w, tree)
     if cfg.get("kind") == "poly-selfref":
         return deferred_c.replay_poly_selfref(cfg, w, tree)
+    if cfg.get("kind") == "poly-mul":
+        return deferred_c.replay_poly_mul(cfg, w, tree)
     if cfg.get("kind") == "pseudo":
         sp = {"x+": "lab+", "x-": "lab-", "#x": "#lab", "@x": "@lab", "%x": "%lab", "x(y)": "lab(2)"}[cfg["op"]]
         srcs = [".word %s\nlab:\n" % sp, "lab:\n.word %s\n" % sp]
